@@ -11,6 +11,9 @@ from kernels import KCFG
 BLK_PARTS = (["blk128_%s_%d" % (d, r) for d in ("enc", "dec") for r in (40, 48, 56)] +
              ["blk64_%s_%d" % (d, r) for d in ("enc", "dec") for r in (32, 36, 40)])
 QUICK_BLK = ["blk128_enc_40", "blk128_dec_56", "blk64_enc_36", "blk64_dec_32"]
+# MANTIS block functions, functionally (WholeMantis.mcryptA_final / mcryptB_final): stored tweak / per-call tweak, r = 5..8
+MBLK_PARTS = ["mblk_%s_%d" % (k, r) for k in ("crypt", "cryptt") for r in (5, 6, 7, 8)]
+QUICK_MBLK = ["mblk_crypt_5", "mblk_crypt_8", "mblk_cryptt_6", "mblk_cryptt_7"]
 # key-schedule functions: every accepted key size, rejected sizes, tweaked keys, tweak changes for both round counts
 def key_parts(w, quick):
     bs = 16 if w == "128" else 8
